@@ -830,7 +830,9 @@ def from_string(u, deep_immutable=False, name=u"<unknown name>"):
         else:
             error = MustBeReadonlyError(kind + " used in a read-only context", name)
 
-    except BadURIError as e:
+    except (BadURIError, ValueError) as e:
+        # ValueError: a number field too long for int() (the interpreter limits
+        # the digits it converts); such a string is not a cap we know
         error = e
 
     return UnknownURI(u, error=error)
